@@ -112,20 +112,24 @@ def describe(fmt: ast.AST, fold: Folder, fname: str, array: bool) -> tuple:
     raise TranslateError(f'{fname}: line {fmt.lineno}: format expression not recognised: {ast.unparse(fmt)[:80]}')
 
 
-def census(fn: ast.FunctionDef, fold: Folder) -> list[dict]:
-    """All format sites of one function, in source order."""
+def census(fn: ast.FunctionDef, fold: Folder, helper_sites: dict[str, list[dict]] | None = None) -> list[dict]:
+    """All format sites of one function, in source order.  A call of a module-level helper that contains format
+    sites counts as those sites at the position of the call (so moving a pack into a helper changes nothing)."""
     sites: list[dict] = []
     consumed: set[int] = set()
     for node in ast.walk(fn):
         if isinstance(node, ast.Call):
             f = ast.unparse(node.func)
-            if f in STRUCT_FUNCS:
+            if helper_sites and f in helper_sites:
+                for hs in helper_sites[f]:
+                    sites.append(dict(hs, line=node.lineno, col=node.col_offset, via=f))
+            elif f in STRUCT_FUNCS:
                 if not node.args:
                     raise TranslateError(f'{fn.name}: line {node.lineno}: {f} without format')
                 d = describe(node.args[0], fold, fn.name, f in ('read_array', 'write_array'))
                 for sub in ast.walk(node.args[0]):
                     consumed.add(id(sub))
-                sites.append({'line': node.lineno, 'col': node.col_offset, 'call': f, 'desc': d, 'node': node})
+                sites.append({'line': node.lineno, 'col': node.col_offset, 'call': f, 'desc': d, 'node': node, 'owner': fn})
             elif f in IGNORED_FUNCS:
                 for sub in ast.walk(node):
                     consumed.add(id(sub))
@@ -135,7 +139,7 @@ def census(fn: ast.FunctionDef, fold: Folder) -> list[dict]:
                 except KeyError:
                     v = None
                 if isinstance(v, str):
-                    sites.append({'line': node.lineno, 'col': node.col_offset, 'call': 'defer', 'desc': ('lit', v), 'node': node})
+                    sites.append({'line': node.lineno, 'col': node.col_offset, 'call': 'defer', 'desc': ('lit', v), 'node': node, 'owner': fn})
                 elif fn.name not in CONTAINER_FUNCS:
                     raise TranslateError(f'{fn.name}: line {node.lineno}: defer() format not constant')
             elif f.startswith('struct.'):
@@ -145,7 +149,7 @@ def census(fn: ast.FunctionDef, fold: Folder) -> list[dict]:
             continue
         k = layout_key(node)
         if k is not None and k != 'LEAF_AREA_OFFSET':
-            sites.append({'line': node.lineno, 'col': node.col_offset, 'call': 'layout', 'desc': ('key', k), 'node': node})
+            sites.append({'line': node.lineno, 'col': node.col_offset, 'call': 'layout', 'desc': ('key', k), 'node': node, 'owner': fn})
     sites.sort(key=lambda s: (s['line'], s['col']))
     return sites
 
@@ -465,7 +469,19 @@ def find_guard(fn: ast.FunctionDef, call: ast.Call, exprs: list[str]) -> tuple[i
                 doms += blk[:blk.index(cur)]
         cur = par
     lo, hi = 0, None
+    # a guard inside an earlier `if c:` block counts when the guarded expression enters the packed tuple in that same
+    # block, after the guard (the value cannot reach the pack call any other way)
+    nested: list[ast.stmt] = []
     for st in doms:
+        if isinstance(st, ast.If) and not (st.body and isinstance(st.body[-1], ast.Raise)):
+            for i, g in enumerate(st.body):
+                if isinstance(g, ast.If) and g.body and isinstance(g.body[-1], ast.Raise) and isinstance(g.test, ast.Compare) \
+                        and isinstance(g.test.left, ast.Call) and ast.unparse(g.test.left.func) == 'len':
+                    e = ast.unparse(g.test.left.args[0])
+                    if any(isinstance(a, ast.Assign) and isinstance(a.value, ast.Tuple)
+                           and e in [ast.unparse(x) for x in a.value.elts] for a in st.body[i + 1:]):
+                        nested.append(g)
+    for st in doms + nested:
         if not isinstance(st, ast.If) or st.orelse or not st.body or not isinstance(st.body[-1], ast.Raise):
             continue
         t = st.test
@@ -522,10 +538,20 @@ def translate() -> tuple[str, dict]:
     fns: dict[str, ast.FunctionDef] = {f.name: f for f in bsp_cls.body if isinstance(f, ast.FunctionDef)}
     helpers = {f.name: f for f in tree.body if isinstance(f, ast.FunctionDef)}
     sites: dict[str, list[dict]] = {}
-    for name, f in {**helpers, **fns}.items():
-        s = census(f, fold)
+    helper_sites: dict[str, list[dict]] = {}
+    for name, f in helpers.items():
+        hs = census(f, fold)
+        if hs:
+            helper_sites[name] = hs
+    helper_called: set[str] = set()
+    for name, f in fns.items():
+        s = census(f, fold, helper_sites)
         if s:
             sites[name] = s
+            helper_called |= {x['via'] for x in s if 'via' in x}
+    for name in helper_sites:
+        if name not in helper_called:
+            raise TranslateError(f'{name}: module-level function with struct sites is not called by any lump reader/writer')
     side: dict[str, Any] = {'sites': {fn: [[s['line'], s['call'], s['desc'][0], s['desc'][1] if s['desc'][0] != 'template' else '<f-string>']
                                            for s in ss] for fn, ss in sites.items()}}
 
@@ -627,11 +653,9 @@ def translate() -> tuple[str, dict]:
     # ---- Ns pack sites and their guards
     ns_lines = []
     side['ns_sites'] = []
-    all_fns = {**helpers, **fns}
     for fn, ss in sites.items():
         if fn in CONTAINER_FUNCS:
             continue
-        f = all_fns[fn]
         is_writer = '_write_' in fn or fn.startswith('_pack') or fn.startswith('_encode')
         for k, s in enumerate(ss):
             d = s['desc']
@@ -652,6 +676,7 @@ def translate() -> tuple[str, dict]:
             if not widths:
                 continue
             # is it a pack site?  literal: struct.pack ; layout: look for `.pack(` on the subscript or its alias
+            f = s['owner']
             calls = _pack_calls(f, s)
             if not calls:
                 if is_writer:
@@ -660,7 +685,7 @@ def translate() -> tuple[str, dict]:
             for call in calls:
                 g = find_guard(f, call, packed_exprs(f, call))
                 for lname, w in widths:
-                    nm = f'{fn}:{call.lineno}:{lname}'
+                    nm = f'{fn}:{s["line"]}:{lname}'
                     ns_lines.append(f'  ({coq_s(nm)}, {w}%nat, {"None" if g is None else "Some (%d%%nat, %d%%nat)" % g})')
                     side['ns_sites'].append({'site': nm, 'width': w, 'guard': g, 'line': call.lineno})
     if not ns_lines:
